@@ -207,41 +207,61 @@ def scalar_kind_compatible(pk, ck):
 
 def rule_shortcut_injective(ctx):
     """R18.9: documented shortcut names of a string-valued setter (Simulation.integrator: WH, WHC, WHCKL, WHCKM, WHCKC, ...)
-    stand for different configurations. The setter is evaluated for every string constant its if/elif chain compares the
-    value with; two names that leave exactly the same assignments behind are one configuration under two names - one of
-    the documented methods cannot be selected."""
+    stand for different configurations. The setter is evaluated (finite-domain evaluation of its body, module-level
+    constant tables included) for every string it compares its argument with or looks up in a table; two names that
+    leave exactly the same set of two or more assignments behind are one configuration under two names - one of the
+    documented methods cannot be selected."""
     import ast
     from . import pyeval
     db = pyfront.pydb()
     cls = db.classes.get('Simulation')
     anchor(cls is not None, 'class Simulation')
+    tree = db.files[cls.path]
+    consts = {}
+    for st in tree.body:
+        if isinstance(st, ast.Assign) and len(st.targets) == 1 and isinstance(st.targets[0], ast.Name) and isinstance(st.value, ast.Dict):
+            v = pyeval._ev(st.value, pyeval.Path({}))
+            if v is not pyeval.UNK:
+                consts[st.targets[0].id] = v
     n = 0
-    for fn in [x for x in ast.walk(cls.node if hasattr(cls, 'node') else db.files[cls.path]) if isinstance(x, ast.FunctionDef)]:
+    for fn in [x for x in ast.walk(tree) if isinstance(x, ast.FunctionDef)]:
         if not any(isinstance(d, ast.Attribute) and d.attr == 'setter' for d in fn.decorator_list):
             continue
         if len(fn.args.args) != 2:
             continue
         param = fn.args.args[1].arg
-        consts = []
+        local_dicts = {}
+        for a_ in ast.walk(fn):
+            if isinstance(a_, ast.Assign) and len(a_.targets) == 1 and isinstance(a_.targets[0], ast.Name) and isinstance(a_.value, ast.Dict):
+                v = pyeval._ev(a_.value, pyeval.Path(dict(consts)))
+                if v is not pyeval.UNK:
+                    local_dicts[a_.targets[0].id] = v
+        cands = []
         for c in ast.walk(fn):
-            if isinstance(c, ast.Compare) and isinstance(c.left, ast.Name) and c.left.id == param and len(c.ops) == 1 and isinstance(c.ops[0], ast.Eq) \
-                    and isinstance(c.comparators[0], ast.Constant) and isinstance(c.comparators[0].value, str):
-                consts.append(c.comparators[0].value)
-        if len(consts) < 2:
+            if isinstance(c, ast.Compare) and isinstance(c.left, ast.Name) and c.left.id == param and len(c.ops) == 1:
+                k0 = c.comparators[0]
+                if isinstance(c.ops[0], ast.Eq) and isinstance(k0, ast.Constant) and isinstance(k0.value, str):
+                    cands.append(k0.value)
+                if isinstance(c.ops[0], ast.In) and isinstance(k0, ast.Name):
+                    d_ = local_dicts.get(k0.id, consts.get(k0.id))
+                    if isinstance(d_, dict) and all(isinstance(v_, tuple) for v_ in d_.values()):
+                        cands += [k_ for k_ in d_ if isinstance(k_, str)]
+        cands = sorted(set(cands))
+        if len(cands) < 2:
             continue
         outcome = {}
-        for k in consts:
-            # the chain lower-cases its argument first: evaluate the body below that statement with the constant itself
-            body = [st for st in ast.walk(fn) if isinstance(st, ast.If) and any(isinstance(x, ast.Compare) and isinstance(x.left, ast.Name) and x.left.id == param and isinstance(x.comparators[0], ast.Constant) and x.comparators[0].value == k for x in ast.walk(st.test))]
-            if not body:
-                continue
-            holder = ast.FunctionDef(name='_', args=fn.args, body=[body[0]], decorator_list=[], lineno=fn.lineno)
-            for env, r in pyeval.paths(holder, {param: [k]}):
+        for k in cands:
+            dom = {param: [k]}
+            dom.update({name: [val] for name, val in consts.items()})
+            best = None
+            for env, r in pyeval.paths(fn, dom):
                 if r.done == 'raise':
                     continue
-                sets = tuple(sorted((t, repr(v)) for t, v in r.env.items() if t.startswith('self.') and v is not pyeval.UNK))
-                if sets:
-                    outcome[k] = sets
+                sets = tuple(sorted((t, repr(v)) for t, v in r.env.items() if t.startswith('self.') and v is not pyeval.UNK and not isinstance(v, dict)))
+                if best is None or len(sets) > len(best):
+                    best = sets
+            if best and len(best) >= 2:
+                outcome[k] = best
             n += 1
         inv = {}
         for k, sets in outcome.items():
